@@ -50,7 +50,28 @@ def run_adoption(desc):
     rng = simgen.mk_rng(desc["seed"], desc["idx"], 151)
     out = O.Out(PROPERTY)
     first = [livecases.make_strategy("E%d" % i) for i in range(rng.randint(1, 2))]
-    tr, w = livecases.new_world(first, n_clients=rng.choice((1, 2)))
+    prior = None
+    prior_bets = []
+    if rng.random() < 0.4:
+        # an earlier instance in the same process ran only part of the strategies and saw the others' bets as unknown; the exchange
+        # state is then taken over by the instance under test, which runs them all
+        prior_ex = live.Exchange()
+        tr0, w0 = livecases.new_world([livecases.make_strategy("E0")], exchange=prior_ex)
+        try:
+            mid0 = w0.add_market_file(livecases.static_market())
+            w0.next_book(mid0)
+            for st in first:
+                tw0 = livecases.make_strategy(st.name)
+                for _ in range(rng.randint(1, 2)):
+                    o0 = livecases.make_order(tw0, mid0, sel=rng.choice((701, 702)), side=rng.choice(("BACK", "LAY")), price=3.0, size=2.0)
+                    b0 = prior_ex._new_bet(mid0, o0.create_place_instruction(), None)
+                    prior_bets.append((st, o0.id, b0["betId"]))
+            w0.snapshot()
+            w0.snapshot()
+        finally:
+            livecases.finish(w0)
+        prior = prior_ex
+    tr, w = livecases.new_world(first, n_clients=rng.choice((1, 2)), **({"exchange": prior} if prior is not None else {}))
     try:
         mid = w.add_market_file(livecases.static_market())
         # after a restart the order stream may speak first: the market is then created from the first order update, its first
@@ -60,7 +81,7 @@ def run_adoption(desc):
             w.next_book(mid)
         ex = w.exchange
         twins = {}
-        expected = []
+        expected = list(prior_bets)
 
         def bets_for(st, n):
             tw = twins.setdefault(st.name, livecases.make_strategy(st.name))
@@ -74,6 +95,7 @@ def run_adoption(desc):
 
         for st in first:
             bets_for(st, rng.randint(1, 3))
+
         # a bet of a strategy nobody registered
         ex._new_bet(mid, {"selectionId": 703, "side": "BACK", "orderType": "LIMIT", "handicap": 0, "customerOrderRef": "0123456789abc-111111111111111111", "limitOrder": {"price": 4.0, "size": 3.0, "persistenceType": "LAPSE"}}, None)
         w.snapshot()
